@@ -184,6 +184,24 @@ def run(ctx, F):
     if okm:
         v = show(strip(sv.flow.arg_tree(st[0], 1)))
         okm = bool(re.match(r"^phi\(Ord::max\(phi\(loop \| 0\), SideMetadataSpec::upper_bound_offset\(.*Iterator>::next.*\)\) \| 0\)$", v))
+        if not okm:
+            # the same maximum as an iterator reduction: specs.iter()[.filter(..)].map(|s| s.upper_bound_offset()).fold(0, max)  /  .max().unwrap_or(0)
+            t = simp(sv.flow.arg_tree(st[0], 1))
+            def mapped_bounds(it):
+                it = simp(it)
+                if not (it and it[0] == "call" and last_seg(it[1] or "") == "map" and len(it[3]) == 2):
+                    return False
+                cl = [x for x in walk(it[3][1]) if x and x[0] == "agg" and x[1][0] == "closure" and x[1][1] in F.fns]
+                if len(cl) != 1 or "[T]::iter(arg1)" not in show(simp(it[3][0])):
+                    return False
+                rts = [show(simp(r)) for _, r in F.fns[cl[0][1][1]].flow.return_trees()]
+                return bool(rts) and all(re.match(r"^SideMetadataSpec::upper_bound_offset\(\**arg2\)$", r) for r in rts)
+            if t and t[0] == "call" and last_seg(t[1] or "") == "fold" and len(t[3]) == 3:
+                z, fn_ = simp(t[3][1]), simp(t[3][2])
+                okm = mapped_bounds(t[3][0]) and z and z[0] == "const" and z[2] == 0 and fn_ and fn_[0] == "fnref" and last_seg(fn_[1]) == "max"
+            elif t and t[0] == "call" and last_seg(t[1] or "") == "unwrap_or" and len(t[3]) == 2:
+                inner, z = simp(t[3][0]), simp(t[3][1])
+                okm = inner and inner[0] == "call" and last_seg(inner[1] or "") == "max" and len(inner[3]) == 1 and mapped_bounds(inner[3][0]) and z and z[0] == "const" and z[2] == 0
         found = v[:200]
     ctx.judge(okm, "C24.reservation", "the registered VM upper bound is the maximum over all registered specs", expected="upper_bound = max(upper_bound, spec.upper_bound_offset()) for every spec", found=found, where=where(sv),
               key="C24.reservation|max")
